@@ -24,8 +24,7 @@ EXPLANATION = (
     "equal the documented linear rule.")
 ASSUMPTIONS = [
     "the request is an object exposing .method and .rel_url.path_safe (all that Resource.resolve reads); path_safe is the symbolic string itself (yarl's decoding is third-party code)",
-    "url_for/resolve inverse is not decided here (quoting lives in yarl)",
-    "normalize_path_middleware redirects are not covered in this tier",
+    "url_for/resolve inverse and normalize_path_middleware redirects are decided on concrete strings chosen by the solver from a fixed alphabet (quoting and URL parsing live in yarl, third-party code that cannot take symbolic text): 27 parameter values x 5 templates; request targets of 1-3 (quick) / 1-4 pieces out of 14 (//, /\\, %2F, %5C, dot segments, evil.com ...) through a real server connection with 4 middleware configurations",
     "domain sub-applications (MatchedSubAppResource) are not in the table grammar",
 ]
 TRUSTED = ["refs/ref_router.py as a reading of docs/web_reference.rst 'Resource'", "symx regex model (used by both sides for the template regexes)"]
